@@ -41,8 +41,12 @@ def gen_sweeps(r, tier):
             if r.chance(0.5):
                 mn = r.range(-10, 80)
                 mx = mn + r.range(1, 40)
+                if r.chance(0.12):
+                    # min above max (the validator accepts it): whatever such a curve is, hotter must not mean slower
+                    # (seed C07h: a clamped-ratio rewrite turned it into a falling ramp)
+                    mn, mx = mx, mn
                 ops.append(f"cv.add id=L{i} kind=linear sensor={sid} min={mn} max={mx} steps=nil")
-                lo, hi = mn, mx
+                lo, hi = min(mn, mx), max(mn, mx)
             else:
                 n = r.range(1, 8)
                 ks = sorted(set(r.range(10, 95) for _ in range(n)))
@@ -170,10 +174,31 @@ def gen_requests(r, tier):
             pm = dict(zip(ks, sorted(r.range(0, 255) for _ in ks)))
         lo, hi = streams.gen_limits(r)
         ops.append("#case request")
+        now = 1000
+        if r.chance(0.35) and lo + 8 < hi:
+            # a never-stop fan that has stalled a few times before (its minimum was raised by 1..4 steps) and spins again:
+            # from that state too a higher curve value must never lower the request (seed C07g: the raised minimum was
+            # dropped again as soon as the mapped target exceeded it)
+            ops.append(f"w.new kind=hwmon ns=1 win=10 minp={lo} maxp={hi} startp={lo} avg=x0000000000000000 map={streams.int_map_tok(pm)} "
+                       f"loop=direct m=- resp=id pwm=0 rpm=0 origmode=2 origpwm=0")
+            for _ in range(r.range(2, 5)):
+                now += 200_000_000
+                ops.append(f"w.cycle curve=0 now={now}")
+                ops.append("w.poll")
+            ops.append("w.dev rpm=900")
+            for _ in range(r.range(1, 4)):
+                ops.append("w.poll")
+            ops.append("#ascend")
+            cs = sorted(set([0, 1, 2, 3, 255] + [r.range(0, 12) for _ in range(6)] + [r.range(-20, 280) for _ in range(30)]))
+            for c in cs:
+                now += 200_000_000
+                ops.append(f"w.cycle curve={c} now={now}")
+                if r.chance(0.5):
+                    ops.append("w.poll")
+            continue
         ops.append(f"w.new kind=hwmon ns=0 win=10 minp={lo} maxp={hi} startp={lo} avg=x408f400000000000 map={streams.int_map_tok(pm)} "
                    f"loop=direct m=- resp=id pwm=0 rpm=900 origmode=2 origpwm=0")
         cs = sorted(set([0, 255] + [r.range(-20, 280) for _ in range(40)]))
-        now = 1000
         for c in cs:
             now += 200_000_000
             ops.append(f"w.cycle curve={c} now={now}")
@@ -202,7 +227,10 @@ class C07(Prop):
         for cops, cgo in cases(ops, go):
             if name == "request":
                 last_t, last_w = None, None
-                for i in range(2, len(cops)):
+                start = next((k for k, o in enumerate(cops) if o.startswith("#ascend")), 1) + 1
+                for i in range(start, len(cops)):
+                    if not cops[i].startswith("w.cycle"):
+                        continue
                     g = kv(cgo[i])
                     if g.get("res") != "ok":
                         break
